@@ -93,9 +93,25 @@ class PWorker(Worker):
         v = x
         while isinstance(v, tuple) and len(v) == 2 and v[0] in ('A', 'B'):
             v = v[1]
+        ex = CURRENT[0]
+        if ex is not None:
+            ex.invocations.append((self.tag, x, ex._round))
+            ex.state['ncalls'] += 1
+            if self.tag in ex.cfg.get('gated', []):
+                # (the simulated child runs in the checker's interpreter: the environment thread can gate it like a thread worker)
+                from mc import sched
+                s = sched.S()
+                key = (self.tag, x)
+                ex.waiting.append(key)
+                if len(ex.waiting) > ex.metrics['waiting']:
+                    ex.metrics['waiting'] = len(ex.waiting)
+                s.block(lambda: key in ex.released or ex.state['stop'], None, on='call-gate')
         if v in self.fail:
             raise srv.Boom(self.tag, v)
         return (self.tag, x)
+
+
+CURRENT = [None]
 
 
 class PSrvExec(srv.SrvExec):
@@ -103,6 +119,7 @@ class PSrvExec(srv.SrvExec):
         from mpservice.mpserver import EnsembleServlet, ProcessServlet, SequentialServlet, ThreadServlet
         from mc import simproc
         cfg = self.cfg
+        CURRENT[0] = self
         simproc.world().pipe_capacity = cfg.get('pipe', 65536)
         nw = cfg.get('nworkers', 1)
         fail = cfg.get('fail', {})
